@@ -170,8 +170,22 @@ func init() {
 		if !ok {
 			panic(engineUnsupported{fmt.Sprintf("sigs.k8s.io/json.UnmarshalStrict of %T (only concrete texts are modelled)", args[0])})
 		}
+		// strict options: none = all checks; otherwise only the listed checks
+		// (DisallowDuplicateFields = 1, DisallowUnknownFields = 2), any other value
+		// is an error of the call - as in sigs.k8s.io/json.UnmarshalStrict
+		checkDup, checkUnknown := true, true
 		if opts, ok := args[2].([]value); ok && len(opts) > 0 {
-			panic(engineUnsupported{"sigs.k8s.io/json.UnmarshalStrict with options"})
+			checkDup, checkUnknown = false, false
+			for _, o := range opts {
+				switch asInt64(o) {
+				case 1:
+					checkDup = true
+				case 2:
+					checkUnknown = true
+				default:
+					return tuple{[]value(nil), newErrorString(fr, "unknown strict option")}
+				}
+			}
 		}
 		noStrict := []value(nil)
 		s := goString(bytesToString(data))
@@ -198,12 +212,16 @@ func init() {
 		}()
 		var strict []value
 		var unknown []string
-		jsonUnknownFields(pt.Elem(), tree, &unknown)
+		if checkUnknown {
+			jsonUnknownFields(pt.Elem(), tree, &unknown)
+		}
 		for _, k := range unknown {
 			strict = append(strict, newErrorString(fr, fmt.Sprintf("unknown field %q", k)))
 		}
-		for _, k := range jsonDupKeys(ex(fr), s) {
-			strict = append(strict, newErrorString(fr, fmt.Sprintf("duplicate field %q", k)))
+		if checkDup {
+			for _, k := range jsonDupKeys(ex(fr), s) {
+				strict = append(strict, newErrorString(fr, fmt.Sprintf("duplicate field %q", k)))
+			}
 		}
 		if _, isNull := tree.(jnull); !isNull {
 			p := out.v.(*value)
